@@ -83,6 +83,19 @@ pub proof fn pf_func_call(n: ast::FuncCall<'_>)
     requires n.wf(), tree_wf(n.0),
     ensures n.0.children_s().len() == 2, n.0.children_s()[0] == n.callee_s(), n.0.children_s()[1] == n.args_s(),
 {}
+/// PF15: a content block / strong / emphasis consists of its two markers around exactly one Markup child
+pub open spec fn container_open(k: SyntaxKind) -> SyntaxKind {
+    if k == SyntaxKind::ContentBlock { SyntaxKind::LeftBracket } else if k == SyntaxKind::Strong { SyntaxKind::Star } else { SyntaxKind::Underscore }
+}
+pub open spec fn container_close(k: SyntaxKind) -> SyntaxKind {
+    if k == SyntaxKind::ContentBlock { SyntaxKind::RightBracket } else if k == SyntaxKind::Strong { SyntaxKind::Star } else { SyntaxKind::Underscore }
+}
+#[verifier::external_body]
+pub proof fn pf_markup_container(n: &SyntaxNode)
+    requires tree_wf(n), n.kind_s() == SyntaxKind::ContentBlock || n.kind_s() == SyntaxKind::Strong || n.kind_s() == SyntaxKind::Emph,
+    ensures n.children_s().len() == 3, n.children_s()[0].kind_s() == container_open(n.kind_s()), n.children_s()[1].kind_s() == SyntaxKind::Markup,
+        n.children_s()[2].kind_s() == container_close(n.kind_s()),
+{}
 /// index one past the closing parenthesis of an argument list (its length if there is none)
 pub open spec fn after_rparen(ch: Seq<&SyntaxNode>) -> int decreases ch.len() {
     if ch.len() == 0 { 0 } else if ch[0].kind_s() == SyntaxKind::RightParen { 1 } else { 1 + after_rparen(ch.subrange(1, ch.len() as int)) }
